@@ -23,6 +23,7 @@ WIRE = {"ChunkWithPayment": 0, "Chunk": 1, "Transaction": 2, "Register": 3, "Reg
 
 
 def run(R):
+    codec_rules(R)
     F = R.F
     names = T.variant_names(F, KIND)
     ser = R.body("C12.tags", "<%s as serde::ser::Serialize>::serialize" % KIND)
@@ -177,3 +178,32 @@ def serde_pairs(R):
         ok = False
         R.viol("C12.serde-pairs", "instance-floor", "expected >= 3 hand-written serde pairs (Chunk, RecordKind, PrettyPrintRecordKey), found %d" % n)
     R.inst("C12.serde-pairs", "K7 table agreement", "hand-written Serialize/Deserialize twins use the same serde data-model kind", n, ok, detail)
+
+
+RMP_DEFAULT = {"rmp_serde::encode::to_vec", "rmp_serde::encode::Serializer::new", "rmp_serde::decode::from_slice", "rmp_serde::decode::from_read",
+               "rmp_serde::decode::from_read_ref", "rmp_serde::decode::Deserializer::new", "rmp_serde::decode::Deserializer::from_read_ref",
+               "rmp_serde::encode::write", "rmp_serde::encode::Serializer::into_inner", "rmp_serde::encode::Serializer::get_ref",
+               "rmp_serde::encode::Serializer::get_mut"}
+
+
+def codec_rules(R):
+    """The fixed-size header relies on rmp_serde's default (compact, array) struct encoding on both sides: `to_vec_named` /
+    `with_struct_map` / `with_human_readable` on the header path changes its length, which SIZE and the reader's slice assume.
+    (The payload may use any configuration the default reader accepts; it is not judged here.)"""
+    F = R.F
+    n, odd = 0, []
+    HDR = "ant_protocol::storage::header::RecordHeader::"
+    for fn in (HDR + "try_serialize", HDR + "try_deserialize", HDR + "from_record", HDR + "is_record_of_type_chunk"):
+        for b in F.item(fn):
+            for c in b.calls:
+                nc = c["ncallee"] or ""
+                if nc.startswith("rmp_serde::") and "::Error" not in nc:
+                    n += 1
+                    if nc not in RMP_DEFAULT:
+                        odd.append((b, c))
+    for b, c in odd:
+        R.viol("C12.codec", "non-default-codec:%s!%s" % (R.root_path(b).split("::")[-1], c["ncallee"].split("::")[-1]),
+               "%s uses %s: the 2-byte header (SIZE) is the default compact encoding of a one-field struct; this call changes its length or shape" % (R.root_path(b), c["ncallee"]), b, c["line"])
+    if n < 2:
+        R.viol("C12.codec", "instance-floor", "only %d rmp_serde call sites found on the header path (floor 2)" % n)
+    R.inst("C12.codec", "K1 forbidden-callee", "the record header is encoded and decoded with rmp_serde's default configuration", n, not odd and n >= 2)
